@@ -679,6 +679,14 @@ func c10RunCase(w *bufio.Writer, rep *c10Reporter, c *c10Case, dist map[string]i
 		expl, u.Z(int64(c.ctl)), u.Hex(c.prefix), u.Hex(tail), c10OptHex(c.conf != nil, c.conf),
 		c.bk, u.List(plans), u.Z(int64(c.udpMin)), u.Z(int64(c.maxSize)), u.Z(int64(len(c.hello))), u.ZList(plens),
 		u.Z(info.InitialPN), c10OptHex(info.TokenSet, info.Token), u.ZList(budgets), u.List(obs)))
+	// the serialised long header of every packet, as the independent observer read it
+	for i, d := range dgs {
+		if d.Err == "" && i < len(pkts) && pkts[i].Header != nil {
+			fmt.Fprintf(w, "CASE 1 %s\n", u.App("HeaderCase", u.Z(1), u.Hex(c.dcid), u.Hex(c.scid), u.Hex(info.Token),
+				u.Z(int64(d.LengthField)), u.Z(d.PN), u.Z(int64(d.PNLen)), u.Hex(pkts[i].Header)))
+			dist["HeaderCase"]++
+		}
+	}
 	dist[strings.Fields(strings.Trim(c.bk, "()"))[0]]++
 	dist[fmt.Sprintf("datagrams=%d", len(dgs))]++
 	if errored {
